@@ -1070,6 +1070,31 @@ def _sh_signal(sig, h):
     return old
 
 
+def _sh_pthread_sigmask(how, mask):
+    s = CUR
+    if s is None or not is_main():
+        return REAL_SIGMASK(how, mask)
+    ours = {int(signal.SIGCHLD), int(signal.SIGINT), int(signal.SIGTERM)}
+    old = set(s.blocked)
+    m = {int(x) for x in mask} & ours
+    if how == signal.SIG_BLOCK:
+        s.blocked |= m
+    elif how == signal.SIG_UNBLOCK:
+        s.blocked -= m
+    elif how == signal.SIG_SETMASK:
+        s.blocked = m
+    s.emit("sigmask", how, sorted(s.blocked))
+    released = sorted(s.blocked_pending - s.blocked)
+    for sg in released:
+        s.blocked_pending.discard(sg)
+        s.raise_signal(sg)            # delivered the moment it is unblocked
+    s.after_call()
+    return {signal.Signals(x) for x in old}
+
+
+REAL_SIGMASK = signal.pthread_sigmask
+
+
 def _sh_siginterrupt(sig, flag):
     s = CUR
     if s is None or not is_main() or sig not in (signal.SIGCHLD, signal.SIGINT, signal.SIGTERM):
@@ -1355,6 +1380,7 @@ def install():
     signal.getsignal = _sh_getsignal
     signal.set_wakeup_fd = _sh_set_wakeup_fd
     signal.siginterrupt = _sh_siginterrupt
+    signal.pthread_sigmask = _sh_pthread_sigmask
     os.read = _sh_read
     time.time = _sh_time
     sqlite3.connect = _sh_sqlite_connect
@@ -1484,6 +1510,8 @@ class Sim:
         self.sa_restart = {}
         self.osink = None
         self.stall_cps = []
+        self.blocked = set()
+        self.blocked_pending = set()
 
     def count(self, key, k=1):
         self.stats[key] = self.stats.get(key, 0) + k
@@ -1622,6 +1650,12 @@ class Sim:
                 self.emit("sigdeath", signal.Signals(int(signum)).name)
                 self.count("reach.signal_met_default_disposition")
                 raise SimSigDeath(signum)
+        if int(signum) in self.blocked:
+            # blocked in the thread's signal mask (inherited from the parent): it stays pending in the kernel -
+            # no C-level handler, no wake-up byte - until somebody unblocks it
+            self.blocked_pending.add(int(signum))
+            self.count("reach.signal_held_back_by_the_inherited_signal_mask")
+            return
         self.pending.add(int(signum))
         self.sig_seq += 1
         if (self.op or {}).get("stdout_gone_on_signal") and int(signum) in (int(signal.SIGINT), int(signal.SIGTERM)):
@@ -2124,6 +2158,11 @@ class Sim:
             # further signals of the same invocation: [{"sig": "INT", "after": d}] - d check points after the
             # previous one (an impatient second Ctrl-C, a batch system that repeats its SIGTERM)
             self.sig_then = [(int(t["after"]), t["sig"]) for t in sg.get("then", [])]
+        for nm in op.get("sig_blocked", []):
+            # signal mask inherited from the parent (a supervisor that waits for its children with sigwait /
+            # signalfd blocks SIGCHLD and may not reset the mask before exec)
+            self.blocked.add(int(getattr(signal, "SIG" + nm)))
+            self.count("fault.SIG%s_blocked_in_inherited_mask" % nm)
         for nm in op.get("sig_ign", []):
             # dispositions inherited from the parent (a non-interactive shell starts background jobs
             # with SIGINT ignored)
